@@ -206,6 +206,13 @@ namespace
 	    parts.push_back('*');
 	    break;
 
+	  case '^':
+	    // Inside a bracket expression an initial ^ means negation,
+	    // so [^] is not a way to match the character itself.
+	    parts.push_back('\\');
+	    parts.push_back('^');
+	    break;
+
 	  case '.':
 	  default:
 	    if (up(w) != down(w))
